@@ -222,6 +222,9 @@ def check(run: Run, ctx) -> None:
                        "non-trivial when the response has content")
     from . import _generic as g
     g.run_corr(run, ctx, "vf.corr.gencode", "GenCode (buildRequest/handle on generated clients, both transports)", quick=0.4, thorough=3.0)
+    g.run_corr(run, ctx, "vf.corr.loader", "Loader (content keys, stream flag vs Pog.Loader)", quick=0.25, thorough=2.5)
+    g.run_oracle(run, ctx, g.Informational(known), "vf.corr.loader", "loader oracle on the real parse_operations (status = declared key, stream flag, parameter order)",
+                 {"LOADER-STREAM-FORMAT-ORDER": "-hazard", "LOADER-PROMO-NAME-COLLISION": "-hazard", "LOADER-POST-NAME-OVERWRITE": "-hazard"}, quick=0.3, thorough=3.0)
     cases = build_cases(ctx, "witness", 1) + build_cases(ctx, "mainstream", ctx.budget(20, 200)) + build_cases(ctx, "wide", ctx.budget(12, 120))
     results = e2e.run_cases("vf.props.C05:case_fn", cases)
     for case, res in zip(cases, results):
